@@ -247,6 +247,84 @@ def same_shape(t1, t2):
     return True
 
 
+_HNAME = {}
+
+
+def _hname(production):
+    """Handler function name the live registry assigns to a production."""
+    if not _HNAME:
+        for prod, name, _cfg in fmt_table.registry():
+            _HNAME[prod] = name
+    return _HNAME.get(production)
+
+
+def _chain_lines(c):
+    """A chain `x* -> x x*` (`_concatenate_lists`) / `x* ->` (`_empty_list`) of comment lines
+    (`_comment_line`) as a list of its line nodes; None when `c` is not such a chain."""
+    out = []
+    while True:
+        if isinstance(c, parser_types.Token):
+            return None
+        h = _hname(c.production)
+        if h == "_empty_list" and not c.children:
+            return out
+        if h != "_concatenate_lists" or len(c.children) != 2:
+            return None
+        line = c.children[0]
+        if isinstance(line, parser_types.Token) or _hname(line.production) != "_comment_line" or \
+                len(line.children) != 2:
+            return None
+        out.append(line)
+        c = c.children[1]
+
+
+def _is_blank_line(line):
+    a, b = line.children
+    return (not isinstance(a, parser_types.Token)) and _hname(a.production) == "_empty_string" and \
+        not a.children and isinstance(b, parser_types.Token)
+
+
+def _strip_blank_lines(lines):
+    i, j = 0, len(lines)
+    while i < j and _is_blank_line(lines[i]):
+        i += 1
+    while j > i and _is_blank_line(lines[j - 1]):
+        j -= 1
+    return lines[i:j]
+
+
+def same_shape_blank(t1, t2):
+    """Hypothesis of `C11_idempotent_partial` (`equivC` followed by `EquivB`): as `same_shape`,
+    except that under a node handled by `_eol` and at the head of the node handled by `_module`
+    the chains of comment lines are compared after dropping the blank lines at their two ends
+    (blank = a `_comment_line` node whose `Comment?` is the empty production)."""
+    stack = [(t1, t2)]
+    while stack:
+        a, b = stack.pop()
+        ta, tb = isinstance(a, parser_types.Token), isinstance(b, parser_types.Token)
+        if ta != tb:
+            return False
+        if ta:
+            if not same_shape(a, b):
+                return False
+            continue
+        if a.production != b.production or len(a.children) != len(b.children):
+            return False
+        h = _hname(a.production)
+        pos = 1 if (h == "_eol" and len(a.children) == 2) else 0 if (h == "_module" and a.children) else None
+        if pos is not None:
+            la, lb = _chain_lines(a.children[pos]), _chain_lines(b.children[pos])
+            if la is not None and lb is not None:
+                la, lb = _strip_blank_lines(la), _strip_blank_lines(lb)
+                if len(la) != len(lb):
+                    return False
+                stack.extend(zip(la, lb))
+                stack.extend((x, y) for i, (x, y) in enumerate(zip(a.children, b.children)) if i != pos)
+                continue
+        stack.extend(zip(a.children, b.children))
+    return True
+
+
 def relayout(r, text, toks):
     """The same token sequence laid out differently *within* each line: every indentation character
     doubled (prefix relations between indentations, which is all the tokenizer looks at, are kept),
@@ -322,6 +400,10 @@ def fixed_point_hypothesis(st, tree, out):
     if t2 is None:
         return
     st.bump(st.stats, "fixed_point_theorem_applies" if same_shape(tree2, tree) else "fixed_point_by_oracle_only")
+    # round 3: the weaker hypothesis of C11_idempotent_partial (blank lines at the ends of comment
+    # blocks may differ as well)
+    st.bump(st.stats, "idempotent_theorem_applies" if same_shape_blank(tree, tree2)
+            else "idempotent_by_oracle_only")
 
 
 # ----------------------------------------------------------------- one case
